@@ -39,6 +39,7 @@ func (e *Engine) useContract(st *State, ct *Contract, fn *ssa.Function, args []V
 	e.ctrs = append(e.ctrs, &ctrFrame{target: ct.Target, mode: modeUse, wrapper: ct.Fn})
 	defer func() { e.ctrs = e.ctrs[:len(e.ctrs)-1] }()
 	e.usedContracts[ct.Target] = true
+	e.trust("contract " + shortFn(ct.Fn) + " stands for " + ct.Target + " at its call sites in this harness (its clauses are assumed here; the function's own lemma, if any, runs the real body)")
 	return e.inline(st, ct.Fn, args, nil, pos)
 }
 
